@@ -111,6 +111,10 @@ def cases_for(tname, tier, primary, seed=0):
                 cs.append({"remaining": a, "auto_off": b, "on": True})
         for on, w, t in itertools.product((True, False), W_CORN, T_CORN):
             cs.append({"on": on, "watts": w, "remaining": t})
+        # an OFF device may carry any stale counter: it is reported as zero whatever the field holds
+        for t in (86400, 86401, 90000, 1 << 24, 1 << 31, (1 << 32) - 1):
+            for w in (0, 2600, 65535):
+                cs.append({"on": False, "watts": w, "remaining": t})
     elif fam == "runner":
         for p in range(101):
             for d in ("stop", "up", "down"):
